@@ -23,6 +23,12 @@ def run(tier, seed, only=None):
             ['c18_o2_last_message_is_max', 'c18_o2_last_message_none_takes'],
             ['mdk_storage_traits::groups::types::Group::update_last_message_if_newer'],
             {'timestamps': 'all u64', 'ids': 'two symbolic bytes (first, last) + 30 fixed bytes', 'unwind': 34}))
+    if not only or 'O4' in only:
+        from props import C10
+        r4 = C10.o1(tier); r4.oid = 'O4'; r4.title = 'SQLite ORDER BY == documented total order; last_message = LIMIT 1 of the same order (shared with C10-O1)'
+        out.append(r4)
+        r5 = C10.o2(tier); r5.oid = 'O5'; r5.title = 'SQLite LIMIT/OFFSET == slice pagination for all limits and usize offsets (shared with C10-O2)'
+        out.append(r5)
     if not only or 'O3' in only:
         from props import memobs
         out.append(memobs.messages_listing(tier, 'O3', 'O3'))
